@@ -480,9 +480,11 @@ static void build_opts(const struct topo *tp, int rich)
 
 static void stage_calc(void)
 {
-  uint64_t idx = 0; int ntop = MC.thorough ? NTP : (NTP < 10 ? NTP : 10);
+  uint64_t idx = 0; int ntop = NTP;
   for (int ti = 0; ti < ntop; ti++) {
     const struct topo *tp = &TP[ti];
+    /* quick: every second synthetic description and every XML fixture (CPU-less nodes, asymmetric trees, disallowed PUs) */
+    if (!MC.thorough && tp->src->kind == USRC_SYNTHETIC && (ti % 2)) continue;
     gen_locs(tp->t, MC.thorough); gen_exprs(MC.thorough); build_opts(tp, MC.thorough);
     if (MC.part == 0) { mc_count("locations_generated", (uint64_t)NLOCS); mc_count("expressions_generated", (uint64_t)NEX); mc_count("option_sets", (uint64_t)NOPTS); }
     MC.states++;
@@ -590,7 +592,7 @@ static void lstopo_checks(const struct topo *tp, uint64_t *idx)
     char *args[10]; int m = 0; args[m++] = (char *)"-i"; args[m++] = (char *)tp->input; args[m++] = (char *)"--of"; args[m++] = (char *)"synthetic"; if (v) { args[m++] = (char *)"--export-synthetic-flags"; args[m++] = (char *)SYNV[v]; } args[m] = NULL;
     struct result r; run_tool("lstopo-no-graphics", args, "", &r); MC.transitions++;
     if (!crashed("lstopo-no-graphics", args, &r, NULL)) {
-      char buf[4096]; int rc = hwloc_topology_export_synthetic(t, buf, sizeof(buf), SF[v]);
+      static char buf[65536]; int rc = hwloc_topology_export_synthetic(t, buf, sizeof(buf), SF[v]);
       if (rc < 0) { if (r.status == 0) mc_violation("c20.lstopo.synthetic.status", "%s :: the library refuses to export this topology, lstopo exits 0 and prints '%.100s'", mc_case_text(), r.out); }
       else {
         size_t bl = strlen(buf);
@@ -599,7 +601,7 @@ static void lstopo_checks(const struct topo *tp, uint64_t *idx)
           /* reload */
           hwloc_topology_t rl; hwloc_topology_init(&rl); hwloc_topology_set_all_types_filter(rl, HWLOC_TYPE_FILTER_KEEP_ALL);
           if (hwloc_topology_set_synthetic(rl, buf) < 0 || hwloc_topology_load(rl) < 0) mc_violation("c20.lstopo.synthetic.reload", "%s :: '%s' does not load", mc_case_text(), buf);
-          else { char b2[4096]; if (hwloc_topology_export_synthetic(rl, b2, sizeof(b2), 0) < 0 || strcmp(buf, b2)) mc_violation("c20.lstopo.synthetic.equivalent", "%s :: '%s' reloads to '%s'", mc_case_text(), buf, b2); else MC.states++; }
+          else { static char b2[65536]; if (hwloc_topology_export_synthetic(rl, b2, sizeof(b2), 0) < 0 || strcmp(buf, b2)) mc_violation("c20.lstopo.synthetic.equivalent", "%s :: '%s' reloads to '%s'", mc_case_text(), buf, b2); else MC.states++; }
           hwloc_topology_destroy(rl);
         }
       }
@@ -607,6 +609,31 @@ static void lstopo_checks(const struct topo *tp, uint64_t *idx)
     result_free(&r); hwloc_topology_destroy(t);
   }
   program_invocation_name = pin; program_invocation_short_name = pisn;
+}
+
+/* long synthetic descriptions: lstopo switches from a stack buffer to a heap buffer at 1024 bytes; sweep the export
+ * length across that boundary with irregular PU numberings (explicit index lists) */
+static void lstopo_long_checks(uint64_t *idx)
+{
+  for (int n = 150; n <= 330; n += (MC.thorough ? 1 : 3), (*idx)++) {
+    if (!mc_mine(*idx) || mc_deadline()) continue;
+    struct sb d; sb_init(&d); sb_printf(&d, "pack:2 core:%d pu:1(indexes=", n / 2); int tot = (n / 2) * 2; for (int i = 0; i < tot; i++) sb_printf(&d, "%s%d", i ? "," : "", (i * 7) % tot == 0 && i ? 0 : (i * 7) % tot);
+    sb_puts(&d, ")");
+    /* (i*7) mod tot is a permutation when tot is not a multiple of 7 */
+    if (tot % 7 == 0) { sb_free(&d); continue; }
+    if (!mc_case("lstopo long synthetic with %d PUs numbered i*7 mod %d", tot, tot)) { sb_free(&d); continue; }
+    hwloc_topology_t t; hwloc_topology_init(&t); hwloc_topology_set_all_types_filter(t, HWLOC_TYPE_FILTER_KEEP_ALL); hwloc_topology_set_io_types_filter(t, HWLOC_TYPE_FILTER_KEEP_IMPORTANT); hwloc_topology_set_flags(t, HWLOC_TOPOLOGY_FLAG_IMPORT_SUPPORT);
+    if (hwloc_topology_set_synthetic(t, d.s) < 0 || hwloc_topology_load(t) < 0) { hwloc_topology_destroy(t); sb_free(&d); continue; }
+    static char buf[65536]; int rc = hwloc_topology_export_synthetic(t, buf, sizeof(buf), 0);
+    char *args[] = { (char *)"-i", d.s, (char *)"--of", (char *)"synthetic", NULL };
+    struct result r; run_tool("lstopo-no-graphics", args, "", &r); MC.transitions++;
+    if (!crashed("lstopo-no-graphics", args, &r, NULL) && rc >= 0) {
+      size_t bl = strlen(buf); mc_count_max("longest_synthetic_export_compared", bl);
+      if (r.status != 0 || strncmp(r.out, buf, bl) || strcmp(r.out + bl, "\n")) mc_violation("c20.lstopo.synthetic.library", "%s :: the library export has %zu bytes, lstopo exits %d and prints %zu bytes ending in '%.20s'", mc_case_text(), bl, r.status, strlen(r.out), strlen(r.out) > 20 ? r.out + strlen(r.out) - 20 : r.out);
+      else MC.states++;
+    }
+    result_free(&r); hwloc_topology_destroy(t); sb_free(&d);
+  }
 }
 
 /* hwloc-diff + hwloc-patch on generated pairs */
@@ -736,6 +763,7 @@ static void stage_other(void)
     if (ti < 3) malformed_checks(tp, &idx);
     if (ti < (MC.thorough ? 8 : 3)) mutated_locations(tp, &idx);
   }
+  lstopo_long_checks(&idx);
   mc_sample("distrib %s | --single 3", TP[0].input);
   mc_sample("lstopo %s | --of xml", TP[0].input);
 }
